@@ -9,7 +9,7 @@ ids = sys.argv[1:] or sorted(set(d[:3] for d in os.listdir(base) if os.path.isdi
 for spec in ids:
     pid, _, extra = spec.partition(':')
     props = [pid] + [e for e in extra.split(',') if e]
-    for x in 'AB':
+    for x in os.environ.get('MUT_VARIANTS', 'ABCDEF'):
         patch = f'{base}/{pid}-{x}/patch.diff'
         if not os.path.exists(patch):
             continue
